@@ -184,7 +184,9 @@ func c12ClusterRound(c *Ctx, round int, n, k int, order []int, finishBefore int,
 		outstanding[i] = true
 	}
 	requeue := append([]int{}, waitingIdx...)
-	sort.Slice(requeue, func(a, b int) bool { return doneOrder[requeue[a]%len(doneOrder)] < doneOrder[requeue[b]%len(doneOrder)] })
+	sort.Slice(requeue, func(a, b int) bool {
+		return doneOrder[requeue[a]%len(doneOrder)] < doneOrder[requeue[b]%len(doneOrder)]
+	})
 	for _, ci := range requeue {
 		if err := core.VerifQueueJob(jm2, chunks2[ci], res, fmt.Sprintf("%s.fork0.chnk%d", fq, ci)); err != nil {
 			return nil
